@@ -112,6 +112,47 @@ def gen_chain(rng, segs, lim_ms):
     return script
 
 
+def gen_retry_then_partial(rng, segs, lim_ms):
+    """A failed attempt (EINTR / would-block) directly followed by a transfer that ends INSIDE a segment,
+    then whatever the call asks for next: the short transfer must end the call with exactly the bytes
+    moved, whatever errno the failed attempt left behind (a successful kernel call does not clear errno)."""
+    script = []
+    total = sum(segs)
+    filled = 0
+    # optionally complete some leading segments first
+    acc = 0
+    for i, l in enumerate(segs):
+        if l and rng.random() < 0.3 and i + 1 < len(segs):
+            script.append({"dt": "0", "r": "moved", "n": l})
+            filled += l
+            acc += l
+        else:
+            break
+    for _ in range(rng.randint(1, 2)):
+        script.append({"dt": "0", "r": rng.choice(["eintr", "eintr", "wouldblock"])})
+    rest = [l for l in segs if l]
+    cur = None
+    pos = 0
+    for l in segs:
+        if pos + l > filled and l > 1:
+            cur = (pos, l)
+            break
+        pos += l
+    if cur:
+        start, l = cur
+        upto = start + l
+        m = rng.randint(1, max(1, upto - filled - 1))
+        script.append({"dt": "0", "r": "moved", "n": m})
+        filled += m
+    for _ in range(rng.randint(0, 3)):
+        k = rng.random()
+        if k < 0.6:
+            script.append({"dt": "0", "r": "moved", "n": rng.randint(0, max(1, total - filled))})
+        else:
+            script.append({"dt": "0", "r": rng.choice(["eintr", "wouldblock"])})
+    return script
+
+
 def gen_case(rng, calls, nb_prob=0.2, wb_bias=0.25):
     call = rng.choice(calls)
     lim_ms = rng.choice(LIMITS_MS)
@@ -128,6 +169,8 @@ def gen_case(rng, calls, nb_prob=0.2, wb_bias=0.25):
                  else {"r": "wouldblock"} if r < 0.9 else {"r": "eintr"})
         first["dt"] = str(_dt(rng, lim_ms))
         script = [first]
+    elif call != "accept" and rng.random() < 0.15:
+        script = gen_retry_then_partial(rng, segs, lim_ms)
     elif call in VEC and rng.random() < 0.4:
         script = gen_chain(rng, segs, lim_ms)
     else:
